@@ -476,8 +476,8 @@ def run_check(prop, tier, seed, workers, batches=None, runs=None, do_minimise=Tr
             lines.append('VIOLATION property=%s replay=%s' % (prop, path))
             classes[vclass] = v
         wall = time.time() - t0
-        agg['summary'] = 'runs=%d ops=%d checked_ops=%d steps=%d switches=%d distinct_runs=%d faults=%s golden_pool=%d' % (
-            agg['runs'], agg['ops'], agg['checked_ops'], agg['steps'], agg['switches'], len(agg['signatures']),
+        agg['summary'] = 'runs=%d ops=%d checked_ops=%d steps=%d switches=%d lock_switches=%d distinct_runs=%d faults=%s golden_pool=%d' % (
+            agg['runs'], agg['ops'], agg['checked_ops'], agg['steps'], agg['switches'], agg['lock_switches'], len(agg['signatures']),
             json.dumps(agg['faults'], sort_keys=True), info['pool'])
         if write_evidence:
             write_ev(prop, tier, seed, agg, wall, len(classes), jobs)
@@ -486,7 +486,7 @@ def run_check(prop, tier, seed, workers, batches=None, runs=None, do_minimise=Tr
         orch.cleanup(scratch)
 
 
-SUM_KEYS = ('runs', 'ops', 'steps', 'switches', 'barrier_hits', 'dirty_hits', 'sweeps', 'double_ctor', 'capped', 'clock_reads_in_explicit_calls',
+SUM_KEYS = ('runs', 'ops', 'steps', 'switches', 'barrier_hits', 'dirty_hits', 'sweeps', 'lock_switches', 'double_ctor', 'capped', 'clock_reads_in_explicit_calls',
             'cold_runs', 'restarts', 'faulted_ops', 'checked_ops', 'swallowed_abort')
 DICT_KEYS = ('faults', 'known', 'sites', 'barrier_sites', 'ctor', 'placements', 'threads', 'sched_kinds', 'culture_classes',
              'get_outcomes')
@@ -537,7 +537,7 @@ def write_ev(prop, tier, seed, agg, wall, nviol, jobs):
                   'count': agg['runs'], 'derivation': 'run_seed = blake2b(VERIF_SEED, property, index)'},
         'simulated_time': 'not applicable to callsim: logical steps only (%d line-granular steps); the simulated wall clock is displaced at random before ops and must be irrelevant' % agg['steps'],
         'faults_fired': agg['faults'],
-        'probes': {'write_barrier_hits': agg['barrier_hits'], 'shared_container_dirty_probe_hits': agg['dirty_hits'], 'write_barrier_sites': agg['barrier_sites'],
+        'probes': {'write_barrier_hits': agg['barrier_hits'], 'shared_container_dirty_probe_hits': agg['dirty_hits'], 'library_lock_contention_switches': agg['lock_switches'], 'write_barrier_sites': agg['barrier_sites'],
                    'write_barrier_classes_interposed': agg['barrier_classes'],
                    'constructions_per_key': agg['ctor'], 'runs_with_double_construction': agg['double_ctor'],
                    'clock_reads_during_explicit_reference_calls': agg['clock_reads_in_explicit_calls'],
